@@ -12,6 +12,7 @@ import (
 	"fmt"
 	"sort"
 	"strings"
+	"unsafe"
 
 	"github.com/9elements/converged-security-suite/v2/pkg/bootflow/systemartifacts/biosimage"
 	"github.com/9elements/converged-security-suite/v2/pkg/bootflow/types"
@@ -121,10 +122,24 @@ func (p *pool) addZZ(content []byte) *hart {
 	return p.add(zz.Art{B: &b}, b)
 }
 
+// artifact identity, decided here and not by the code under test: RawBytes are the
+// same artifact iff they are the same slice (data pointer, len, cap), the other
+// artifact types are pointers / comparable structs
+func sameArtifact(a, b types.SystemArtifact) bool {
+	if x, ok := a.(types.RawBytes); ok {
+		y, ok := b.(types.RawBytes)
+		return ok && len(x) == len(y) && cap(x) == cap(y) && unsafe.SliceData([]byte(x)) == unsafe.SliceData([]byte(y))
+	}
+	if _, ok := b.(types.RawBytes); ok {
+		return false
+	}
+	return a == b
+}
+
 // identity of an artifact the implementation handed back
 func (p *pool) idOf(sa types.SystemArtifact) int {
 	for _, a := range p.arts {
-		if types.EqualSystemArtifacts(a.sa, sa) {
+		if sameArtifact(a.sa, sa) {
 			return a.id
 		}
 	}
@@ -288,7 +303,7 @@ func sortOrder(rs []href) []int {
 		ts[i] = tagged{r, i}
 	}
 	cmp := func(a, b href) int {
-		if types.EqualSystemArtifacts(a.art.sa, b.art.sa) {
+		if a.art.id == b.art.id {
 			return 0
 		}
 		return strings.Compare(a.art.tn, b.art.tn)
@@ -316,9 +331,9 @@ func main() {
 	g := &gen{c: c}
 
 	g.readAtExhaustive()
-	g.rangeCases(c.Scale(500, 5000))
-	g.refCases(c.Scale(900, 9000))
-	g.bytesCases(c.Scale(500, 5000))
+	g.rangeCases(c.Scale(1000, 8000))
+	g.refCases(c.Scale(2100, 15000))
+	g.bytesCases(c.Scale(1000, 8000))
 	g.fixedCases()
 	g.probes()
 
